@@ -13,6 +13,12 @@ converters of `dassh.utils` for every ordered pair of units (round trip and
 value); a swept subset (Reactor built and swept; mesh and temperatures against
 the SI twin).
 
+Tiers: quick = 90 systems x 17 data families (1530 parses; `full_a` + `full_b`
+alone contain every dimensional key of input_template.txt, the others isolate
+one section each) + every spelling once + scalar pairs + 5 swept systems that
+together use every unit that parses; thorough = the same data part + every
+mass x time x separator spelling + 90 systems x 2 swept families.
+
 Tolerances (derived, not tuned)
 * data leaves: |obs - ref| <= 1e-12 |ref| + 1e-12.  The harness conversion
   SI->unit and dassh's conversion unit->SI are each a handful of correctly
@@ -216,7 +222,7 @@ _PW2 = {'rings': 2, 'cells': [0.0, 0.2, 0.4], 'q': 5000.0, 'pins': 'tilt', 'axia
 _PW2D = dict(_PW2, nduct=2, duct='uniform')
 
 
-def _core7(tA, tB, bcs):
+def _core7(bcs):
     """seven assemblies: centre + ring 2; bcs = list of (type name, bc dict) per position"""
     pos = S.core_positions(2)
     return [[bcs[i][0], pos[i][0], pos[i][1], dict(bcs[i][1])] for i in range(7)]
@@ -243,7 +249,7 @@ def families():
                                      't3': {'type': 'clad_od', 'assemblies': [1], 'axial_positions': [0.175, 0.225]}}},
         'core': {'inlet': 623.15, 'length': 0.4, 'pitch': 0.064, 'gap_model': 'flow', 'bypass_fraction': 0.01,
                  'coolant': 'sodium_se2anl_425'},
-        'types': {'A': A, 'B': B}, 'assign': _core7(A, B, bcs), 'power': pw,
+        'types': {'A': A, 'B': B}, 'assign': _core7(bcs), 'power': pw,
         'orificing': {'assemblies_to_group': ['A'], 'n_groups': 2, 'value_to_optimize': 'peak coolant temp',
                       'bulk_coolant_temp': 783.15, 'pressure_drop_limit': 0.5}}
     # -- full_b: defaults everywhere (no Setup keys), the alternative spellings ----
@@ -254,7 +260,7 @@ def families():
         'setup': {},
         'core': {'inlet': 628.15, 'length': 0.4, 'pitch': 0.0645, 'gap_model': 'no_flow',
                  'coolant': 'sodium'},
-        'types': {'A': A, 'B': B}, 'assign': _core7(A, B, bcs),
+        'types': {'A': A, 'B': B}, 'assign': _core7(bcs),
         'power': {'asm': {str(i + 1): _PW2 for i in range(7)}}}
     # -- narrow families (one section each) -------------------------------
     P = S.design(2)
@@ -280,6 +286,9 @@ def families():
     F['orificing'] = S.single(P, 0.5, power=_PW2)
     F['orificing']['orificing'] = dict(F['full_a']['orificing'])
     F['multiduct'] = S.single(S.design(2, ducts=2, oftf=0.07), 0.5, power=_PW2D)
+    # NaK below 0 degC (liquid down to -12.6 degC): every number positive in kelvin
+    # and fahrenheit, the inlet temperature negative in celsius
+    F['cold_nak'] = S.single(P, 0.5, power=_PW2, coolant='nak', inlet=268.15)
     # -- swept families ---------------------------------------------------
     # (region boundaries 0.125 / 0.275 m: not all unit round trips reproduce them bit for bit)
     reg = copy.deepcopy(_REG_NOEPS)
@@ -298,17 +307,16 @@ def families():
         'setup': {'axial_mesh_size': 0.004},
         'core': {'inlet': 623.15, 'length': 0.4, 'pitch': 0.064, 'gap_model': 'flow', 'bypass_fraction': 0.05,
                  'coolant': 'sodium_se2anl_425'},
-        'types': {'A': A, 'B': B}, 'assign': _core7(A, B, bcs),
+        'types': {'A': A, 'B': B}, 'assign': _core7(bcs),
         'power': {'asm': {str(i + 1): (pa if bcs[i][0] == 'A' else pb) for i in range(7)}}}
     return F
 
 
-QUICK_FAMILIES = ('full_a', 'full_b')
 DATA_FAMILIES = ('full_a', 'full_b', 'core_min', 'setup', 'regions', 'regions_noeps', 'spacer', 'spacer_sol', 'fuelmodel',
-                 'fuelmodel_fc', 'pinmodel', 'pinmodel_fc', 'bc_outlet', 'bc_delta', 'orificing', 'multiduct')
+                 'fuelmodel_fc', 'pinmodel', 'pinmodel_fc', 'bc_outlet', 'bc_delta', 'orificing', 'multiduct', 'cold_nak')
 SWEEP_FAMILIES = ('sw_single', 'sw_core7')
 QUICK_SWEEPS = (('cm', 'celsius', 'kg/s'), ('mm', 'fahrenheit', 'lb/min'), ('in', 'kelvin', 'lb/hr'),
-                ('ft', 'celsius', 'lb/min'), ('m', 'fahrenheit', 'kg/s'))
+                ('ft', 'celsius', 'kg/s'), ('m', 'fahrenheit', 'kg/s'))
 _FAM = None
 
 
@@ -432,11 +440,16 @@ def classify(obs, ref, L, T, M):
 
 
 def exit_site(e):
-    """innermost dassh frame that is not the logger (SystemExit comes from LoggedClass.log)"""
+    """innermost frame of read_input.py (else innermost dassh frame), the logger
+    excluded (SystemExit comes from LoggedClass.log)"""
     inner = None
+    rd = None
     for fr in traceback.extract_tb(e.__traceback__):
         if os.sep + 'dassh' + os.sep in fr.filename and '/verif/' not in fr.filename and fr.name != 'log':
             inner = fr
+            if os.path.basename(fr.filename) == 'read_input.py':
+                rd = fr
+    inner = rd or inner
     if inner is None:
         return site_of(e)
     return '%s@%s:%s' % (type(e).__name__, os.path.basename(inner.filename), inner.name)
@@ -762,39 +775,47 @@ def systems():
 
 
 def data_cases(tier):
-    fams = DATA_FAMILIES        # cheap enough for both tiers (QUICK_FAMILIES alone contain every key)
+    fams = DATA_FAMILIES        # cheap enough for both tiers (full_a + full_b alone contain every key)
     return [{'mode': 'data', 'family': f, 'length_unit': L, 'temp_unit': T, 'mfr_unit': M}
             for f in fams for (L, T, M) in systems()]
 
 
 def alias_cases(tier):
-    """every accepted spelling once (the other two units are non-SI spellings that parse)"""
+    """every accepted spelling of every unit once, in an input whose other units
+    convert (quick); every mass x time x separator spelling (thorough)"""
     out = []
 
     def case(L, T, M, written, what):
-        out.append({'mode': 'alias', 'family': 'full_a', 'length_unit': L, 'temp_unit': T, 'mfr_unit': M,
+        out.append({'mode': 'alias', 'family': 'setup', 'length_unit': L, 'temp_unit': T, 'mfr_unit': M,
                     'spelling': what, 'units_as_written': written})
     for u, names in sorted(ALIAS['length'].items()):
         for n in names + [names[0].upper()]:
-            case(u, 'celsius', 'lb/min', {'length': n, 'temperature': 'celsius', 'mass_flow_rate': 'lb/min'}, n)
+            case(u, 'celsius', 'kg/s', {'length': n, 'temperature': 'celsius', 'mass_flow_rate': 'kg/s'}, n)
     for u, names in sorted(ALIAS['temperature'].items()):
         for n in names + [names[-1].capitalize()]:
-            case('cm', u, 'lb/hr', {'length': 'cm', 'temperature': n, 'mass_flow_rate': 'lb/hr'}, n)
-    seps = ('/', 'per')
-    for m, mnames in sorted(ALIAS['mass'].items()):
+            case('cm', u, 'kg/s', {'length': 'cm', 'temperature': n, 'mass_flow_rate': 'kg/s'}, n)
+
+    def mcase(m, t, w):
+        case('in', 'fahrenheit', '%s/%s' % (m, t), {'length': 'in', 'temperature': 'fahrenheit', 'mass_flow_rate': w}, w)
+    if tier == 'quick':
+        for mn in ALIAS['mass']['kg']:
+            mcase('kg', 's', mn + '/s')
+        for mn in ALIAS['mass']['lb']:
+            mcase('lb', 'min', mn + '/min')
         for t, tnames in sorted(ALIAS['time'].items()):
-            full = tier == 'thorough'
-            for i, mn in enumerate(mnames):
-                for j, tn in enumerate(tnames):
-                    if not full and i and j:
-                        continue          # quick: every spelling of one part with the first spelling of the other
-                    for sep in seps:
-                        if not full and sep == 'per' and (i or j):
-                            continue
-                        w = mn + sep + tn
-                        case('in', 'fahrenheit', '%s/%s' % (m, t),
-                             {'length': 'in', 'temperature': 'fahrenheit', 'mass_flow_rate': w}, w)
-    case('in', 'fahrenheit', 'lb/hr', {'length': 'IN', 'temperature': 'F', 'mass_flow_rate': 'LB/HR'}, 'LB/HR')
+            for tn in tnames:
+                mcase('kg' if t == 's' else 'lb', t, ('kg/' if t == 's' else 'lb/') + tn)
+        for m, t, w in (('kg', 's', 'kgpers'), ('lb', 'min', 'lbpermin'), ('lb', 'hr', 'poundsperhour'),
+                        ('kg', 's', 'KG/S'), ('lb', 'hr', 'LB/HR')):
+            mcase(m, t, w)
+    else:
+        for m, mnames in sorted(ALIAS['mass'].items()):
+            for t, tnames in sorted(ALIAS['time'].items()):
+                for mn in mnames:
+                    for tn in tnames:
+                        for sep in ('/', 'per'):
+                            mcase(m, t, mn + sep + tn)
+        mcase('lb', 'hr', 'LB/HR')
     return out
 
 
